@@ -437,8 +437,10 @@ class StorageRunner:
                 revs = self.model.revisions(oid)
                 if len(revs) < 2 or oid in pending or not self.can_stale(oid):
                     continue
-                if revs[-1][1] is None and not self.kind.startswith('fs'):
-                    continue        # (an object that has been un-created meanwhile: file storages only)
+                if revs[-1][1] is None and (not self.kind.startswith('fs') or self.packed):
+                    # (an object that has been un-created meanwhile: file storages only - and not after a pack, which
+                    # may have removed the object altogether: a store for its id is then a creation)
+                    continue
                 stale = revs[max(0, len(revs) - 1 - max(1, r[2]))][0]
                 if revs[-1][1] is None:
                     # a writer that loaded the object before its creation was undone (or before it was deleted) commits
